@@ -126,11 +126,41 @@ func CheckC06(o *Outcome) []Problem {
 						bad(sigFor("output-without-input-finalizer"), "%s %s: input %s is %s (no %s finalizer) while its image exists", stage, c.name, id, desc(in), c.name)
 					}
 				default:
+					// while the removal of the controller's finalizer is postponed by the user's removal function (stage 1 only) the
+					// output of a torn-down input legitimately stays, together with the finalizer
+					postponed := o.Opts.PostponeRemoval && c.fin && stage == "stage1" && in != nil && slices.Contains(in.Fins, c.name)
+
 					switch {
+					case postponed:
+						// (whether the output was taken away during the postponement is judged on the log below)
 					case out != nil && !held:
 						bad(sigFor("orphaned-output"), "%s %s: input %s is %s but output %s still exists and is not held by a foreign finalizer", stage, c.name, id, desc(in), desc(out))
 					case out == nil && in != nil && slices.Contains(in.Fins, c.name):
 						bad(sigFor("finalizer-not-released"), "%s %s: input %s is %s: torn down, output gone, but the controller's finalizer is still there", stage, c.name, id, desc(in))
+					}
+				}
+			}
+
+			// while the user's function postpones the finalizer removal the controller must leave the output alone
+			if o.Opts.PostponeRemoval && c.fin && stage == "stage1" {
+				shadow := map[gp.Key]*gp.Snap{}
+
+				for _, cm := range o.Log {
+					if cm.Seq >= o.HoldLiftedAt {
+						break
+					}
+
+					if cm.Op == "destroy" && cm.Key.Type == c.outType {
+						if in := shadow[key(res.TypeA, cm.Key.ID)]; in != nil && in.TearingDown() && slices.Contains(in.Fins, c.name) {
+							bad("output-destroyed-while-finalizer-removal-postponed", "%s: output %s/%s destroyed at %d while input is %s and the removal function postpones", c.name, c.outType[:1], cm.Key.ID, cm.Seq, desc(in))
+						}
+					}
+
+					switch cm.Op {
+					case "create", "update":
+						shadow[cm.Key] = cm.Post
+					case "destroy":
+						delete(shadow, cm.Key)
 					}
 				}
 			}
